@@ -104,12 +104,31 @@ def ask(project, root, req):
 
 
 def materialise(case):
-    root = os.path.join(SCRATCH or '/tmp/vsim-c17-x', 'p')
+    # The directory name is a function of the case alone: path strings take part in the behaviour under test
+    # (their hashes order any set they are put in), so the worker, its helper interpreters and a later replay
+    # must all see the same paths.
+    core = {k: v for k, v in case.items() if k in ('kind', 'prog', 'spec', 'spec_b', 'path', 'requests', 'req_seed')}
+    root = '/tmp/vsimc17-' + prng.digest(core)
     shutil.rmtree(root, ignore_errors=True)
     os.makedirs(root)
     if case['kind'] == 'project':
-        G.write_project(root, case['spec'])
+        if case.get('spec_b'):
+            # two source roots; some module names exist in both (the first root must win, in every process)
+            G.write_project(os.path.join(root, 'a'), case['spec'])
+            G.write_project(os.path.join(root, 'b'), case['spec_b'])
+        else:
+            G.write_project(root, case['spec'])
     return root
+
+
+def new_project(root, case):
+    """The project a session would use: for two-root cases the one a real Server builds from the configuration."""
+    if case.get('kind') == 'project' and case.get('spec_b'):
+        import supp.server
+        srv = supp.server.Server(None)
+        srv.configure({'sources': [os.path.join(root, 'a'), os.path.join(root, 'b')]})
+        return srv.project
+    return Project([root])
 
 
 def real_files(tier):
@@ -134,11 +153,11 @@ def answers(case, requests, idseeds, repeat=True):
             idhash.install(s)
             try:
                 supp.scope.builtin_scope.__dict__.pop('names', None)
-                p = Project([root])
+                p = new_project(root, case)
                 res = [ask(p, root, q) for q in requests]
                 if repeat and s in idseeds[:2]:
                     res2 = [ask(p, root, q) for q in requests]
-                    p3 = Project([root])
+                    p3 = new_project(root, case)
                     res3 = [ask(p3, root, q) for q in reversed(requests)][::-1]
                     out[str(s)] = {'first': res, 'again': res2, 'fresh_reversed': res3}
                 else:
@@ -245,7 +264,17 @@ def gen_case(seed, i, mode):
         m = spec['modules'][k]
         m = dict(m, iface=dict(m['iface'], multis=['m0_' + G.short(m['name'])]), version=m['version'] - 1)
         spec['modules'][k] = G.fill_module(r, m, spec['modules'][:k])
-    return {'kind': 'project', 'spec': spec, 'req_seed': r.getrandbits(32)}
+    case = {'kind': 'project', 'spec': spec, 'req_seed': r.getrandbits(32)}
+    if r.random() < 0.5:
+        # a second source root holding later versions of some of the modules (and all packages)
+        mods_b = []
+        tmp = {'modules': list(spec['modules'])}
+        for k, m in enumerate(spec['modules']):
+            if m.get('init') or r.random() < 0.6:
+                tmp['modules'][k] = G.mutate_module(r, tmp, k)
+                mods_b.append(tmp['modules'][k])
+        case['spec_b'] = {'modules': mods_b}
+    return case
 
 
 def file_requests(case):
